@@ -70,7 +70,7 @@ def gen_init(rng, pool):
     if rng.random() < 0.35:
         return None
     oc = lambda: rng.choice([None, rng.randrange(pool)])
-    return (rng.choice([None, 0, 31, 7]), rng.choice([None, "10", "01", "11"]), oc(), oc(), oc())
+    return (rng.choice([None, 0, 31, 7]), rng.choice([None, "10", "01", "11", "00"]), oc(), oc(), oc())
 
 
 def init_tok(si):
